@@ -1,6 +1,6 @@
 #!/bin/bash
 # Re-check every compiled theory of the development with Coq's independent checker and print the axioms it relies on.
-# usage: bash harness/coqchk_all.sh   (after bash setup.sh); takes about a minute.
+# usage: bash harness/coqchk_all.sh   (after bash setup.sh); takes about two minutes.
 cd "$(dirname "$0")/../coq" || exit 2
 mods=$(find theories -name "*.vo" | sed 's#theories/#TL.#; s#/#.#g; s#\.vo$##' | sort | tr '\n' ' ')
 timeout 3000 coqchk -silent -o -Q theories TL $mods
